@@ -14,4 +14,37 @@ META = {
         design_ref="DESIGN.md §4 C13",
         note="Views up to 4 (6 thorough) entries; SHA-256 as collision-free uninterpreted function for the topic derivation; ASN.1 serialisation of stored data is not encoded.",
     ),
+    "C02": dict(
+        text="Bounded model checking (S2) of the real rbc.Receiver: two honest receivers, all other participants Byzantine, k events chosen and filled in by the solver "
+             "(any broadcast, any acknowledgement incl. about itself, honest acks in any order, re-sends); agreement asserted after every event. "
+             "Plus one inductive step (S3) of a two-receiver invariant from an arbitrary invariant state, which extends the claim to histories of any length inside the finite digest/round domain.",
+        design_ref="DESIGN.md §4 C02",
+        note="N=3 k<=4, N=4 k<=3 quick (k<=5/4 and N=5 thorough); from != self and from is a participant (filter checked at the threshold layer by C10/C12 harnesses); digest collision freeness.",
+    ),
+    "C03": dict(
+        text="Same bounded runs as C02 with integrity monitors on the hand-over callback: attributed sender is a participant, the delivered object was received directly from that sender, "
+             "at most once per (sender, round), never nil, point-to-point handed over exactly as received; plus an S3 step of the single-receiver invariant I1-I5.",
+        design_ref="DESIGN.md §4 C03",
+        note="Same bounds and assumptions as C02.",
+    ),
+    "C04": dict(
+        text="S3 order-independence step (state after any received subset is the canonical state of that subset) and S2 complete system runs of N real receivers over every delivery order.",
+        design_ref="DESIGN.md §4 C04",
+        note="All parties honest; N=2 (2 senders x 2 rounds), N=3 (1-2 senders) quick; N=3 two rounds and N=4 thorough.",
+    ),
+    "C06": dict(
+        text="Bounded model checking of the real id-translation code with all node ids, party ids and the Go map iteration order symbolic: Init arguments, OnMsg attribution, point-to-point destination, duplicate-party refusal; DKG path executed through the real KeyGen/runDKG with scripted synchronisers.",
+        design_ref="DESIGN.md §4 C06",
+        note="3 configured nodes, 2 participants; recording stubs for backend, RBC factory and synchroniser.",
+    ),
+    "C10": dict(
+        text="One single-call harness per network-facing entry point with symbolic bytes, lengths, type, source and session state; the engine's built-in run-time failure assertions (bounds, nil, type assertion, nil map, explicit panic, deadlock) are the oracle.",
+        design_ref="DESIGN.md §4 C10",
+        note="Input lengths bounded per entry (see evidence); cap == len buffers; Source != SelfID; library internals modelled.",
+    ),
+    "C12": dict(
+        text="Bounded model checking of the real Scheme.Sign/KeyGen executed with goroutines, select, mutexes and context under the engine's symbolic scheduler; session outcome symbolic; handler tables read after each return and a follow-up call made.",
+        design_ref="DESIGN.md §4 C12",
+        note="Scripted collaborators; context expiry at quiescence; 2-3 API calls per run.",
+    ),
 }
